@@ -18,8 +18,8 @@ except ImportError:  # falsifier module not present
 META = {
     "level": "proof",
     "rule": 'B2 table rows: one per element type per dialect' + ((" | falsifier: " + F.META.get("rule", "")) if F and hasattr(F, "META") else ""),
-    "modelled": 'converter dispatch (ConverterTables.lean); comment/blank/case cleaning, continuation merging, RPN reordering (Text.lean); NX drift filling (Nx.lean)',
-    "gap": 'partial: the statement-level regex chain, eval and line expansion are covered differentially only',
+    "modelled": 'converter dispatch (ConverterTables.lean); comment/blank/case cleaning, continuation merging, RPN reordering (Text.lean); NX drift filling (Nx.lean); statement level: what parse_lines\' handlers do to the context, wild cards, expansion of lines by convert_element (Namelist.lean)',
+    "gap": 'partial: the regexes that classify and cut statements and Python eval of general expressions are exercised by the correspondence nml but not modelled; element-level conversion by tables + falsifier',
     "assumptions": ((F.META.get("assumptions", []) if F and hasattr(F, "META") else []) + []),
 }
 
